@@ -170,8 +170,30 @@ impl<'a> fv_template::LiteralVisitor for TemplateVisitor<'a> {
             return;
         };
 
-        self.literal.push_str(text);
+        // The text is a fragment of the literal's source, so any escape
+        // sequences in it (like `\n` or `\"`) still need to be evaluated
+        let text = match unescape_text(text) {
+            Ok(text) => text,
+            Err(e) => {
+                self.parts = Err(e);
+                return;
+            }
+        };
+
+        self.literal.push_str(&text);
 
         parts.push(quote!(emit::template::Part::text(#text)));
     }
+}
+
+fn unescape_text(text: &str) -> syn::Result<String> {
+    if !text.contains('\\') {
+        return Ok(text.to_owned());
+    }
+
+    // Braces never appear within an escape sequence the template parser accepts, so a
+    // fragment of text between holes is always a complete string literal body
+    let lit = syn::parse_str::<syn::LitStr>(&format!("\"{}\"", text))?;
+
+    Ok(lit.value())
 }
